@@ -15,7 +15,7 @@ Inductive fn :=
 | F_memcpy32_s | F_memmove32_s | F_memset32_s | F_memzero32_s
 | F_strtok_seq | F_wcstok_seq
 | F_timingsafe_bcmp | F_timingsafe_memcmp
-| F_bsearch_s.
+| F_bsearch_s | F_strzero_s.
 
 Definition arg (l : list Z) (i : nat) : Z := nth i l 0.
 Definition ret1 (p : prog Z) : prog (list Z) := r <- p ;; Ret [r].
@@ -44,6 +44,7 @@ Definition run_fn (c : cfg) (f : fn) (a : list Z) : prog (list Z) :=
   | F_timingsafe_bcmp => ret1 (timingsafe_bcmp c (arg a 0) (arg a 1) (arg a 2) (arg a 3) (arg a 4))
   | F_timingsafe_memcmp => ret1 (timingsafe_memcmp c (arg a 0) (arg a 1) (arg a 2) (arg a 3) (arg a 4))
   | F_bsearch_s => ret1 (bsearch_s c (arg a 0) (arg a 1) (arg a 2) (arg a 3) (arg a 4))
+  | F_strzero_s => ret1 (strzero_s c (arg a 0) (arg a 1) (arg a 2))
   | F_wcstok_seq => wcstok_seq c (arg a 0) (arg a 1) (arg a 2) (arg a 3) (arg a 4) (arg a 5)
   end.
 
